@@ -34,6 +34,7 @@ type histOpts struct {
 	TimeBase  int64
 	MsgPrefix string
 	Parents   [][]int // explicit shape (overrides the random one)
+	Rekey     bool    // some commits store their rows under the key (id, a): same blocks, different block indices
 }
 
 func cloneRows(rows [][]string) [][]string {
@@ -133,9 +134,23 @@ func buildHistory(db objects.Store, rng *rand.Rand, o histOpts) (*history, error
 		default:
 			rows = editRows(rng, h.rows[ps[0]], fmt.Sprint(i))
 		}
-		tsum, err := ingestRows(db, h.cols, h.pk, rows)
+		pk := h.pk
+		if o.Rekey && rng.Intn(3) == 0 {
+			pk = []string{"id", "a"}
+		}
+		tsum, err := ingestRows(db, h.cols, pk, rows)
 		if err != nil {
 			return nil, err
+		}
+		if o.Rekey && rng.Intn(4) == 0 {
+			// and the same rows once more under the other key, so that blocks are shared between the two tables
+			other := []string{"id", "a"}
+			if len(pk) == 2 {
+				other = h.pk
+			}
+			if _, err := ingestRows(db, h.cols, other, rows); err != nil {
+				return nil, err
+			}
 		}
 		var psums [][]byte
 		for _, p := range ps {
